@@ -47,6 +47,7 @@ HARNESS = os.path.join(vlib.HARNESS, "cluster")
 F7_SIGNATURE = "retry-before-new-leader-applied-first-copy"
 F7B_SIGNATURE = "retry-while-first-copy-unapplied-on-same-leader"
 VISIBLE_SIGNATURE = "acked-post-applied-twice-although-first-copy-was-visible"
+STALE_SIGNATURE = "stale-retry-after-newer-post"
 _LOCK = threading.Lock()
 
 
@@ -523,27 +524,36 @@ def shrinkgrow_schedule(seed):
             "origin": "membership", "expect_snapshot_installs": 1}
 
 
-def stale_retry_schedule(seed):
+def stale_retry_schedule(seed, rounds=6):
     """Third shape of the double application (same root cause as F7/F7b), on purpose: a
-    request is parked at a node that is stalled for longer than the client's timeout;
+    request is parked at a node that is stalled for longer than the client's patience;
     the client retries elsewhere (same ClientMessageId), is acknowledged and posts newer
     messages; the stalled node wakes up and handles the stale request: the duplicate
     test only knows the session's LAST ClientMessageId, so the old message is committed
-    and delivered a second time, behind the newer ones."""
+    and delivered a second time, behind the newer ones. Whether the woken node still
+    forwards the stale request is a race inside net/http (the proxied request carries the
+    context of a connection the client has closed), hence several rounds."""
     steps = setup_steps(3)
     steps += [{"op": "bg", "count": 1}, {"op": "barrier"},
-              {"op": "bind", "n": 8, "to": "follower"},
-              # a kept-alive connection to that node, so that the next request reaches its socket
-              {"op": "post", "c": 1, "n": 8}, {"op": "await", "c": 1},
-              {"op": "pause", "n": 8},
-              {"op": "post", "c": 1, "n": 8},                      # times out after 4 s, retried elsewhere
-              {"op": "await", "c": 1, "ms": 20000},
-              {"op": "post", "c": 1, "n": "leader"}, {"op": "await", "c": 1},
-              {"op": "post", "c": 1, "n": "leader"}, {"op": "await", "c": 1},
-              {"op": "resumeall"},
-              {"op": "sleep", "ms": 1500},
-              {"op": "barrier"},
-              {"op": "bg", "count": 1}, {"op": "barrier"}]
+              {"op": "bind", "n": 8, "to": "follower"}]
+    for r in range(rounds):
+        c = r % 3 + 1
+        steps += [# a kept-alive connection to that node, so that the next request reaches its socket
+                  {"op": "post", "c": c, "n": 8}, {"op": "await", "c": c},
+                  # the stall stays below raft's heartbeat timeout (2 s), so that the node still
+                  # knows its leader when it wakes up; the client is less patient than that
+                  {"op": "clienttimeout", "c": c, "ms": 500},
+                  {"op": "pause", "n": 8},
+                  {"op": "retryat", "c": c, "n": "leader"},
+                  {"op": "post", "c": c, "n": 8},                      # times out, retried at the leader
+                  {"op": "await", "c": c, "ms": 20000},
+                  {"op": "post", "c": c, "n": "leader"}, {"op": "await", "c": c},
+                  {"op": "post", "c": c, "n": "leader"}, {"op": "await", "c": c},
+                  {"op": "resumeall"},
+                  {"op": "clienttimeout", "c": c, "ms": 4000},
+                  {"op": "sleep", "ms": 900},
+                  {"op": "barrier"}]
+    steps += [{"op": "bg", "count": 1}, {"op": "barrier"}]
     return {"name": "stale-retry-%d" % seed, "nodes": 3, "clients": 3, "seed": seed, "steps": steps, "origin": "f7c"}
 
 
@@ -791,7 +801,7 @@ class History:
         first, second = idxs[0], idxs[1]
         between = [i for i in range(first + 1, second) if i in log and log[i][0] == c and log[i][2] == 2 and log[i][1] != cmid]
         if between:
-            return "stale-retry-after-newer-post", "a newer post of the same session (index %s) lies between the copies" % between
+            return STALE_SIGNATURE, "a newer post of the same session (index %s) lies between the copies" % between
         # who proposed the copies? (hook H3 fires on the proposing node only)
         def proposer(idx):
             for st, evs in self.node_events.items():
@@ -887,7 +897,7 @@ INVARIANT_SIGNATURE = {
     "StatesEqual": "replicated-state-differs-between-members",
 }
 # invariants through which a double application in the committed sequence shows
-DUP_CONSEQUENCES = ("AckedExactlyOnce", "DeliveredInSenderOrder", "FinalComplete", "FinalInSenderOrder")
+DUP_CONSEQUENCES = ("AckedExactlyOnce", "AckedInOrder", "DeliveredInSenderOrder", "FinalComplete", "FinalInSenderOrder")
 
 
 def tlc_validate(ctx, hist, name, cfg="ClusterTrace.cfg", mutate=None):
@@ -939,6 +949,7 @@ def judge(ctx, res, hist, r, replay):
             what += ": " + hist.state_difference()
         replay = dict(replay)
         replay.update({"invariant": inv, "tlc_last_state": tail_state(r), "history": hist.summary()})
+        r.signature = sig
         new = ctx.violation(sig, what, replay)
         return "violation" if new else "known"
     if r.deadlock:
@@ -1332,7 +1343,8 @@ def run(ctx):
             f7_seen = True
         if verdict == "known":
             # the known shape hides the predicates it implies; check all the others on the same history
-            r2 = tlc_validate(ctx, hist, name + "-rest", cfg="ClusterTrace_rest.cfg")
+            stale = STALE_SIGNATURE in getattr(r, "signature", "") or "mixed" in getattr(r, "signature", "")
+            r2 = tlc_validate(ctx, hist, name + "-rest", cfg="ClusterTrace_rest2.cfg" if stale else "ClusterTrace_rest.cfg")
             if r2.ok:
                 ctx.add("traces_validated_against_impl")
                 ctx.add("events_validated", r2.events)
